@@ -156,7 +156,8 @@ class Gen:
         y = plain('case')
         self.finish(y)
         self.sw += 1
-        marks = [['u', ['oneof', [first, b['id']]]], ['v', ['sw', f'sw{self.sw}', d['id'], [['L0', x['id']], ['L1', y['id']]]]]]
+        k = len(consumer['params'])
+        marks = [[f'lf{k}', ['oneof', [first, b['id']]]], [f'lf{k + 1}', ['sw', f'sw{self.sw}', d['id'], [['L0', x['id']], ['L1', y['id']]]]]]
         if rng.random() < 0.5:
             marks.reverse()
         consumer['params'].extend(marks)
@@ -199,7 +200,30 @@ class Gen:
         cases = [['L0', direct], ['L1', grd]]
         if rng.random() < 0.5:
             cases.reverse()
-        consumer['params'].append(['w', ['sw', f'sw{self.sw}', d['id'], cases]])
+        consumer['params'].append([f'rp{len(consumer["params"])}', ['sw', f'sw{self.sw}', d['id'], cases]])
+
+    def sibling_oneof_shape(self, consumer, visible):
+        """consumer(u: OneOf([X, B1]), v: OneOf([X, B2])): two one-ofs of one consumer share their first candidate, so
+        the second one finds X already started (possibly still in flight, possibly failing later) by the first."""
+        rng = self.rng
+
+        def plain(dep='N0'):
+            n = self.new_node()
+            n['params'].append(['a', ['in', dep]])
+            self.flags[n['id']].add('cand')
+            return n
+        x = plain(rng.choice(self.shareable(visible, False) or ['N0']))
+        if rng.random() < 0.5:
+            x['plan']['fail'] = ['ALWAYS', rng.choice(['E1', 'E2', 'ERt'])]
+            ins = list(self.p['inputs'])
+            x['plan']['fail_when'] = sorted(rng.sample(ins, rng.randint(1, len(ins) - 1)))
+        self.finish(x)
+        b1, b2 = plain(), plain()
+        self.finish(b1)
+        self.finish(b2)
+        consumer['params'].append([f'so{len(consumer["params"])}', ['oneof', [x['id'], b1['id']]]])
+        consumer['params'].append([f'so{len(consumer["params"])}', ['oneof', [x['id'], b2['id']]]])
+        self.slow_hint.append(x['id'])
 
     def reusable(self, visible):
         """Finished nodes that may become a case / candidate of a further construct."""
@@ -233,6 +257,8 @@ class Gen:
             return nid
         if not in_rec and not in_cand and depth > 0 and self.budget >= 6 and rng.random() < p.get('p_rec_paths_shape', 0.02):
             self.rec_paths_shape(node, local_visible)
+        if not in_rec and depth > 0 and self.budget >= 4 and rng.random() < p.get('p_sibling_oneof_shape', 0.02):
+            self.sibling_oneof_shape(node, local_visible)
         if not in_rec and depth > 0 and self.budget >= 5 and rng.random() < p.get('p_lazy_fail_shape', 0.03):
             self.lazy_fail_shape(node, local_visible)
         for i in range(max(1, nparams)):
@@ -789,10 +815,10 @@ def dynamic_two_scopes(prog, ref):
     nodes = prog['nodes']
     cons = consumers(prog)
     roots = []
-    st = [(prog['output'], 0)]
+    st = [(prog['output'], 0, None)]
     while st and len(roots) < 400:
-        root, d = st.pop()
-        roots.append(root)
+        root, d, via = st.pop()
+        roots.append((root, via))
         if d > 6:
             continue
         for x in eager_closure(prog, root):
@@ -800,16 +826,16 @@ def dynamic_two_scopes(prog, ref):
                 if m[0] == 'sw':
                     sel = ref.label_of.get((x, pname))
                     if sel:
-                        st.append((sel[1], d + 1))
+                        st.append((sel[1], d + 1, m[2]))
                 elif m[0] == 'oneof':
                     for c in ref.tried_of.get((x, pname), []):
-                        st.append((c, d + 1))
-    closures = [(r, eager_closure(prog, r)) for r in roots]
+                        st.append((c, d + 1, None))
+    closures = [(r, eager_closure(prog, r), via) for r, via in roots]
     dests = {m[2] for n in nodes.values() for _, m in n.get('params', []) if m[0] == 'rec'}
     for dest in dests:
         k = 0
-        for r, clo in closures:
-            if dest in clo and not (r != prog['output'] and _scope_ordered_after(prog, cons, r, dest)):
+        for r, clo, via in closures:
+            if dest in clo and not _scope_ordered_after(prog, cons, via, dest):
                 k += 1
         if k > 1:
             return True
@@ -823,8 +849,8 @@ def _ordered_after(prog, cons, y, dest):
     rcons = {c for c, _, k in cons[dest] if k == 'dest'}
     if not rcons:
         return False
-    if y in rcons or rcons & ancestors(prog, y):
-        return True
+    if y in rcons or rcons & eager_closure(prog, y):
+        return True      # eager dependencies only: a consumer of dest behind a case / candidate link does not order y
     # y is a case of switches whose deciders are ordered after dest - and nothing else consumes it (a case that is
     # also consumed directly belongs to the sub-pipeline of that consumer and starts as soon as it is ready)
     reach = reachable(prog)
@@ -836,7 +862,7 @@ def _ordered_after(prog, cons, y, dest):
             continue
         for _, m in node.get('params', []):
             if m[0] == 'sw' and any(y == c for _, c in m[3]):
-                dec_anc = ancestors(prog, m[2]) | {m[2]}
+                dec_anc = eager_closure(prog, m[2])
                 if rcons & dec_anc:
                     ordered += 1
                 else:
@@ -844,18 +870,15 @@ def _ordered_after(prog, cons, y, dest):
     return ordered > 0 and unordered == 0
 
 
-def _scope_ordered_after(prog, cons, root, dest):
-    """Scope rooted at case node `root` can only start after `dest` is final (its switch's decider depends on
-    a consumer of the recurrent result)."""
+def _scope_ordered_after(prog, cons, via, dest):
+    """A case scope spawned by the switch whose decider is `via` can only start after `dest` is final: the decider
+    eagerly depends on a consumer of the recurrent result.  (`via` None: a candidate scope or the main pipeline.)"""
+    if via is None:
+        return False
     rcons = {c for c, _, k in cons.get(dest, []) if k == 'dest'}
     if not rcons:
         return False
-    for nid, node in prog['nodes'].items():
-        for _, m in node.get('params', []):
-            if m[0] == 'sw' and any(c == root for _, c in m[3]):
-                if rcons & (ancestors(prog, m[2]) | {m[2]}):
-                    return True
-    return False
+    return bool(rcons & eager_closure(prog, via))
 
 
 def analyze(prog):
@@ -931,29 +954,29 @@ def analyze(prog):
     # recurrent destination is final.  A construct consumer that occurs in k scopes spawns its sub-scopes k times.
     def instances():
         out = []
-        st = [(prog['output'], 0)]
+        st = [(prog['output'], 0, None)]
         while st and len(out) < 400:
-            root, d = st.pop()
-            out.append(root)
+            root, d, via = st.pop()
+            out.append((root, via))
             if d > 6:
                 continue
             for x in eager_closure(prog, root):
                 for _, m in nodes[x].get('params', []):
                     if m[0] == 'sw':
                         for _, c in m[3]:
-                            st.append((c, d + 1))
+                            st.append((c, d + 1, m[2]))
                     elif m[0] == 'oneof':
                         for c in m[1]:
-                            st.append((c, d + 1))
+                            st.append((c, d + 1, None))
         return out
     inst = instances()
-    closures = [(r, eager_closure(prog, r)) for r in inst]
+    closures = [(r, eager_closure(prog, r), via) for r, via in inst]
 
     def occ(x, dest_for_order=None):
         n = 0
-        for r, clo in closures:
+        for r, clo, via in closures:
             if x in clo:
-                if dest_for_order is not None and r != prog['output'] and _scope_ordered_after(prog, cons, r, dest_for_order):
+                if dest_for_order is not None and _scope_ordered_after(prog, cons, via, dest_for_order):
                     continue
                 n += 1
         return n
